@@ -106,7 +106,11 @@ fn run_worker(prop: &str, tier: &str, k: usize, n: usize, ctx: &mut Ctx) {
     "C13" => props::c13_worker(tier, k, n, ctx),
     "C06" => props::c06_worker(tier, k, n, ctx),
     "C08" => c08::worker(tier, k, n, ctx),
-    "C09" => c09::worker(tier, k, n, ctx),
+    "C09" => {
+      c09::worker(tier, k, n, ctx);
+      c09::dense_worker(tier, k, n, ctx);
+      c09::subset_worker(tier, k, n, ctx);
+    }
     "C05" => hist::c05_worker(tier, k, n, ctx),
     "C12" => codec::c12_worker(tier, k, n, ctx),
     "C15" => jsonmc::c15_worker(tier, k, n, ctx),
